@@ -82,6 +82,8 @@ pub fn model_tags2() -> ModelSpec {
             char_ngram_model: vec![
                 TagNgramData { ngram: "ba".into(), weights: vec![tw(0, vec![4, 0, 0, 1, 0])] },
                 TagNgramData { ngram: "ab".into(), weights: vec![tw(1, vec![0, 6, 0, 0, 3]), tw(2, vec![1, 1, 1, 1, 1])] },
+                // beyond the window (the trainer emits relative positions up to the n-gram size)
+                TagNgramData { ngram: " ba".into(), weights: vec![tw(3, vec![-9, 0, 7, 0, 0])] },
             ],
             type_ngram_model: vec![TagNgramData { ngram: vec![2, 3], weights: vec![tw(1, vec![-1, 2, 5, 0, 0])] }],
             bias: vec![1, 0, 0, 2, 1],
@@ -142,7 +144,8 @@ impl World {
     /// from an empty model; using one of them is a harness bug). Used by the schedule enumerator,
     /// which needs a fresh (never-used) set of predictors for every schedule.
     pub fn new_with(tier: Tier, needed: Option<&[usize]>) -> Self {
-        let raw = vec!["abab", "a", "あaあa𠀋b", "a\r\nbe\u{301}", "", "a\0b"].into_iter().map(String::from).collect();
+        // "a ba" / "a bb": the token "a" at index 0 has the same context up to the window and a different one beyond it
+        let raw = vec!["abab", "a", "あaあa𠀋b", "a ba", "a bb", "a\r\nbe\u{301}", "", "a\0b"].into_iter().map(String::from).collect();
         let tok = vec!["ab a", "a/X b/Y/Z", "あ/T a\\ b", "a//x\\/ b", " a", "a  b", "a ", "a /x", "", "\\", "a\0"].into_iter().map(String::from).collect();
         let part = vec!["a|b-a", "a/X|b a/Y/Z", "あ-a b", "a//X-b/Y", "a|", "a?b", "", "\0"].into_iter().map(String::from).collect();
         let want = |i: usize| needed.map_or(true, |n| n.contains(&i));
